@@ -794,7 +794,7 @@ fn tcpseq_case(rc: &RCfg, timeout_ms: u64, ops: &[String], out: &mut Out) {
         for op in ops {
             let op = op.split('@').next().unwrap().to_string();
             let op = &op;
-            stamped.borrow_mut().push(if op.starts_with('T') || op.starts_with('Q') { op.clone() } else { format!("{op}@{}", crate::vclock::now() - crate::vclock::BASE_NS) });
+            stamped.borrow_mut().push(if op.starts_with('T') || op.starts_with('Q') || op.starts_with('B') { op.clone() } else { format!("{op}@{}", crate::vclock::now() - crate::vclock::BASE_NS) });
             match op.as_bytes()[0] {
                 b'S' => {
                     let t: Vec<&str> = op[1..].split('.').collect();
@@ -806,6 +806,13 @@ fn tcpseq_case(rc: &RCfg, timeout_ms: u64, ops: &[String], out: &mut Out) {
                     v.push(match r { Ok(()) => "sent".to_string(), Err(e) => format!("err:{}", ErrK::of(&e).tok()) });
                 }
                 b'T' => { crate::vclock::advance(op[1..].parse().unwrap()); v.push("t".to_string()); }
+                b'B' => {
+                    // the wall clock is set BACK (never before the start of the line)
+                    let now = crate::vclock::now();
+                    let d: u64 = op[1..].parse().unwrap();
+                    crate::vclock::set(now - d.min(now - crate::vclock::BASE_NS));
+                    v.push("b".to_string());
+                }
                 b'Q' => {
                     // an ICMP datagram arrives on the receive socket: Q<from hex or ->:<bytes hex>
                     let (f, b) = op[1..].split_once(':').unwrap();
@@ -1186,6 +1193,7 @@ pub fn run(args: &Args, out: &mut Out) {
                             let (sp, dp) = match c.pd { PortDirection::FixedSrc(s) => (s.0, port), _ => (port, 80) };
                             ops.push(format!("S{sp}.{dp}.{oc}"));
                         }
+                        2 if rng.chance(1, 5) => ops.push(format!("B{}", *rng.pick(&[1_000u64, 900_000, 5_000_000, 2_000_000_000, 9_000_000_000]))),
                         2 => ops.push(format!("T{}", *rng.pick(&[1_000u64, 900_000, 1_000_000, 4_999_999, 5_000_000, 6_000_000, 2_000_000_000]))),
                         3 if rng.chance(1, 2) => {
                             // a router's Time Exceeded / Unreachable quoting one of this tracer's TCP probes arrives on the ICMP socket
